@@ -248,6 +248,7 @@ def sym_np():
         stack = staticmethod(np.stack)
         binary_repr = staticmethod(np.binary_repr)
         mod = staticmethod(lambda a, b: a % b)
+        result_type = staticmethod(lambda *a: object)
 
         class linalg:
             matrix_power = staticmethod(np.linalg.matrix_power)
